@@ -275,6 +275,15 @@ def vstep (st : VState) (line : String) : VState × String :=
       (st, if splitSelected a rv then "ok trial" else "bad selection: split trial on an edge of ratio " ++ toString rv ++
         " <= split_ratio " ++ toString sv)
     | _, _ => (st, "bad T: malformed")
+  | ["CT", dim, r, cr] =>
+    match parseF? r, parseF? cr with
+    | some rv, some crv =>
+      let a : Adapt F := { (adaptCreate : Adapt F) with collapseRatio := crv }
+      -- planar grids: a target can be stale (see the `CB` record); 3-D: the work list is kept current
+      (st, if collapseSelected a rv then "ok target" else if dim == "2" then "ok target stale-2d"
+           else "bad selection: ref_collapse_pass tries to remove a vertex whose shortest edge " ++ toString rv ++
+                " is not shorter than collapse_ratio " ++ toString crv)
+    | _, _ => (st, "bad CT: malformed")
   | "SB" :: n0 :: n1 :: nw :: p :: q :: rest =>
     match n0.toNat?, n1.toNat?, nw.toNat?, parseF? p, parseF? q, parseConfig rest with
     | some a0, some a1, some aw, some pmin, some pmax, some (tbl, cells) =>
